@@ -233,6 +233,66 @@ def replay(family, ndjson, tag, env=None, timeout=3600):
     return r
 
 
+# ------------------------------------------------------------------------ trace validation
+
+def record_create_trace(tag, big=False):
+    """impl -> spec: run the real `sfs create` (hook H1) on fixtures and cohorts, return the trace path and summary."""
+    trace = os.path.join(WORK, "conform", tag + ".trace.ndjson")
+    os.makedirs(os.path.dirname(trace), exist_ok=True)
+    out = conform(["record", "create", trace], env={"RECORD_BIG": "1"} if big else None, timeout=3600)
+    summary = json.loads(out.strip().splitlines()[-1])
+    if not os.path.exists(trace) or os.path.getsize(trace) == 0:
+        raise ToolError("no trace was recorded: is the binary built with --cfg %s (hook H1 present)?" % GUARD)
+    return trace, summary
+
+
+def validate_trace(tag, trace, module="MCCreateTrace", cfg="CreateTrace.cfg", timeout=1800):
+    """Check a recorded trace against the trace specification with TLC.  Returns a dict:
+    accepted, events, matched (longest matched prefix), first_unmatched (the event after it), violated."""
+    with open(trace) as f:
+        events = [l for l in f if l.strip()]
+    r = tlc(tag, module, cfg, workers=1, timeout=timeout, env={"TRACE": trace},
+            java_opts="-Xmx4g -XX:ParallelGCThreads=2 -Xss512m -Dtlc2.tool.queue.IStateQueue=StateDeque")
+    res = {"accepted": r.ok, "events": len(events), "violated": r.violated, "tlc": r, "matched": None,
+           "first_unmatched": None}
+    if not r.ok:
+        with open(r.out, errors="replace") as f:
+            for line in f:
+                if "TRACE-REJECTED" in line:
+                    m = re.search(r"TRACE-REJECTED at line\", (\d+)", line)
+                    if m:
+                        d = int(m.group(1))
+                        res["matched"] = d - 1
+                        if d - 1 < len(events):
+                            res["first_unmatched"] = events[d - 1].strip()
+        if res["matched"] is None and r.violated is None and r.error and "TRACE-REJECTED" not in (r.error or ""):
+            # not a rejection but a tool problem
+            if "Postcondition" not in (r.error or "") and "postcondition" not in (r.error or ""):
+                raise ToolError("trace validation could not run: %s (see %s)" % (r.error, r.out))
+    return res
+
+
+def apalache_inductive(tag, module, init, nxt, inv, timeout=900):
+    """Init => Inv (length 0) and Inv /\\ Next => Inv' (length 1) with Apalache: an inductive invariant, i.e. a
+    proof for behaviours of ANY length.  Returns wall seconds; raises ToolError when not established."""
+    d = os.path.join(WORK, "apalache", tag)
+    sh(["rm", "-rf", d])
+    os.makedirs(d, exist_ok=True)
+    import shutil
+    shutil.copy(os.path.join(SPEC, module + ".tla"), d)
+    t = time.time()
+    for step, (i, length) in enumerate([(init, 0), (inv, 1)]):
+        r = sh(["apalache-mc", "check", "--init=" + i, "--next=" + nxt, "--inv=" + inv, "--length=%d" % length,
+                "--out-dir=" + os.path.join(d, "out"), module + ".tla"], cwd=d, timeout=timeout)
+        txt = r.stdout.decode(errors="replace")
+        if "EXITCODE: OK" not in txt:
+            raise ToolError("Apalache did not establish %s (step %d): %s" % (inv, step, txt[-800:]))
+    sh(["rm", "-rf", d])
+    w = time.time() - t
+    log("Apalache: %s is an inductive invariant of %s (%.1fs)" % (inv, module, w))
+    return w
+
+
 # ----------------------------------------------------------------------- verdict + evidence
 
 def known_findings():
